@@ -73,6 +73,41 @@ def model_B(doc):
             for p_ in st["properties"]:
                 if p_["name"] == "startCharacter":
                     p_.pop("optional", None)
+        # base / mixin structures gain a property (derived declarations must not remember it)
+        if st["name"] in ("TextDocumentPositionParams", "WorkDoneProgressParams", "TextDocumentRegistrationOptions", "WorkDoneProgressOptions", "StaticRegistrationOptions"):
+            st["properties"].append({"name": "verifStaleBaseProp", "type": {"kind": "base", "name": "string"}, "optional": True})
+    return b
+
+
+def model_B2(doc):
+    """Same *shape* as the committed model (same declarations, same member counts) but edited inside
+    existing declarations - what a cache keyed by a summary of the model would confuse with it."""
+    b = copy.deepcopy(doc)
+    for st in b["structures"]:
+        for p_ in st["properties"]:
+            if (st["name"], p_["name"]) == ("FoldingRange", "startCharacter"):
+                p_.pop("optional", None)
+            if (st["name"], p_["name"]) == ("FoldingRange", "collapsedText"):
+                p_["type"] = {"kind": "base", "name": "uinteger"}
+            if (st["name"], p_["name"]) == ("CreateFile", "kind"):
+                p_["type"] = {"kind": "stringLiteral", "value": "createX"}
+            # inner edits of base / mixin structures (what a name-keyed cache of definitions would leak
+            # into the derived declarations of a later model)
+            if (st["name"], p_["name"]) == ("TextDocumentPositionParams", "position"):
+                p_["type"] = {"kind": "reference", "name": "Range"}
+            if (st["name"], p_["name"]) == ("WorkDoneProgressParams", "workDoneToken"):
+                p_.pop("optional", None)
+            if (st["name"], p_["name"]) == ("WorkDoneProgressOptions", "workDoneProgress"):
+                p_["type"] = {"kind": "base", "name": "string"}
+            if (st["name"], p_["name"]) == ("TextDocumentRegistrationOptions", "documentSelector"):
+                p_["type"] = {"kind": "reference", "name": "DocumentSelector"}
+            if (st["name"], p_["name"]) == ("Hover", "range"):
+                p_["type"] = {"kind": "or", "items": [p_["type"], {"kind": "base", "name": "null"}]}
+    for e in b["enumerations"]:
+        if e["name"] == "MarkupKind":
+            e["values"][0]["value"] = "plaintextX"
+        if e["name"] == "DiagnosticSeverity":
+            e["values"][0]["value"] = 11
     return b
 
 
@@ -131,6 +166,10 @@ def main(tier):
         json.dump(trimmed(doc), open(pTrimA, "w"))
         pTrimB = os.path.join(root, "trimB.json")
         json.dump(trimmed(model_B(doc)), open(pTrimB, "w"))
+        pB2 = os.path.join(root, "modelB2.json")
+        json.dump(model_B2(doc), open(pB2, "w"))
+        pTrimB2 = os.path.join(root, "trimB2.json")
+        json.dump(trimmed(model_B2(doc)), open(pTrimB2, "w"))
         pC = os.path.join(root, "modelC.json")
         json.dump(model_C(doc), open(pC, "w"))
         pTrimC = os.path.join(root, "trimC.json")
@@ -229,25 +268,27 @@ def main(tier):
                 compare("bare", go("rust-bare", outdir=dE), "package directory pre-exists without src/")
             if True:
                 # two runs inside one process
-                # inside one process: a different model B first, then model A twice
+                # inside one process: a same-shape model B2 first, then A, then a different model B, then A twice
                 script = (
                     "import sys, generator.__main__ as g\n"
                     "a=sys.argv[1:]\n"
                     "m=[] if a[4]=='-' else ['--model', a[4]]\n"
+                    "g.main(['--plugin', a[0], '--output-dir', a[2]+'2', '--test-dir', a[2]+'-t', '--model', a[6]])\n"
+                    "g.main(['--plugin', a[0], '--output-dir', a[3]+'x', '--test-dir', a[3]+'-t']+m)\n"
                     "g.main(['--plugin', a[0], '--output-dir', a[2], '--test-dir', a[2]+'-t', '--model', a[5]])\n"
                     "g.main(['--plugin', a[0], '--output-dir', a[1], '--test-dir', a[1]+'-t']+m)\n"
                     "g.main(['--plugin', a[0], '--output-dir', a[3], '--test-dir', a[3]+'-t']+m)\n"
                 )
                 d1, dB2, d2 = os.path.join(root, "out-%s-p1" % plugin), os.path.join(root, "out-%s-pB" % plugin), os.path.join(root, "out-%s-p2" % plugin)
                 env = dict(os.environ, PYTHONPATH=common.REPO, PYTHONHASHSEED="7", PYTHONDONTWRITEBYTECODE="1")
-                p = subprocess.run([common.PY, "-c", script, plugin, d1, dB2, d2, (mA[0] if mA else "-"), mB[0]], cwd=common.REPO, env=env, capture_output=True, text=True, timeout=900)
+                p = subprocess.run([common.PY, "-c", script, plugin, d1, dB2, d2, (mA[0] if mA else "-"), mB[0], (pTrimB2 if plugin == "testdata" else pB2)], cwd=common.REPO, env=env, capture_output=True, text=True, timeout=900)
                 with lock:
-                    runs += 3
-                histories.append("%s:B, A, A inside one process" % plugin)
+                    runs += 5
+                histories.append("%s:B2 (same shape, inner edits), A, B, A, A inside one process" % plugin)
                 if p.returncode != 0:
                     rep.fail("later run in one process fails|%s" % plugin, {"tail": (p.stdout + p.stderr)[-600:]})
                 else:
-                    for d, w in ((d1, "after a different model"), (d2, "third")):
+                    for d, w in ((d1, "after a different model"), (d2, "third"), (d2 + "x", "after a same-shape model")):
                         if owned(plugin, d) != ref_o:
                             rep.fail("output differs from the fresh seed-0 run|%s|%s run inside one process" % (plugin, w), {})
             # a model with anonymous literal types whose derived names collide: two processes agree, no id leaks
